@@ -35,6 +35,10 @@ REPLAY_DIR = os.path.join(ROOT, "replays")
 KNOWN_FILE = os.path.join(ROOT, "known_findings.json")
 
 NCPU = int(os.environ.get("VERIF_JOBS", "16"))
+REPO = os.environ.get("VERIF_REPO", "/repo")  # tree under test (registered commands use /repo)
+if REPO != "/repo":  # runs against a scratch tree never touch the committed evidence
+    EVIDENCE_DIR = os.path.join(os.environ.get("TMPDIR", "/tmp"), "verif-alt-evidence")
+    REPLAY_DIR = os.path.join(os.environ.get("TMPDIR", "/tmp"), "verif-alt-replays")
 
 
 def seed() -> int:
